@@ -376,6 +376,41 @@ theorem C16_counterexample_noisy_pulses_accumulate :
       (getNoisy pcfgCurrent (getNoisy pcfgCurrent pstate1 false).1 false).2 = .ok [some ⟨3, [6], []⟩] := by
   decide
 
+/-- **noise_list_unchanged.** `process_noise` appends `RelaxationNoise(t1, t2)` to the list of noise objects it works
+on.  If a copy of that LIST is made between its owner (the caller of the public `process_noise`, or a hardware model —
+also a user-defined one — whose `get_noise` hands out its own list) and the `append`, then after ANY history of noisy
+evaluations the owner's list is the list it was, the held pulses keep their values, and every evaluation returns
+`noisyVal` of (held values, the owner's noise objects followed by the relaxation object, `device_noise`, generator
+state): the same as on a freshly built processor / a fresh call, whatever happened before. -/
+theorem noise_list_unchanged (cfg : PCfg) (hg : cfg.procCopy = true ∨ cfg.noiseCopy = .deep) (relax : Option (List Int))
+    (st : PState) (hwf : ∀ r ∈ st.held, WFP st.w r) (dns : List Bool) (dn : Bool) :
+    (getNoisyTAll cfg true relax st dns).noise = st.noise ∧
+    pulsesVal (getNoisyTAll cfg true relax st dns).w st.held = pulsesVal st.w st.held ∧
+    retVal (getNoisyT cfg true relax (getNoisyTAll cfg true relax st dns) dn).1.w
+        (getNoisyT cfg true relax (getNoisyTAll cfg true relax st dns) dn).2 =
+      (noisyVal (valsOf st.w st.held) (usedNoise st.noise relax) dn (getNoisyTAll cfg true relax st dns).rng).1 := by
+  obtain ⟨h1, h2, h3⟩ := getNoisyTAll_frame cfg hg relax dns st hwf
+  have hwfh : ∀ r ∈ (getNoisyTAll cfg true relax st dns).held, WFP (getNoisyTAll cfg true relax st dns).w r := by
+    rw [h2]; exact fun r hr => h1.wfp (hwf r hr)
+  have e := (getNoisyT_spec cfg hg true relax (getNoisyTAll cfg true relax st dns) hwfh dn).1.val
+  simp only at e
+  rw [h2, h3, h1.valsOf st.held hwf] at e
+  exact ⟨h3, h1.pulsesVal st.held hwf, e⟩
+
+/-- **Counter-example (no copy of the noise list anywhere).** A processor with relaxation (one collapse operator,
+token 9): the owner's list has 1, then 2, then 3 noise objects, and the second evaluation returns a `systematic_noise`
+with the collapse operator twice. -/
+theorem C16_counterexample_noise_list_grows :
+    (getNoisyTAll pcfgCurrent false (some [9]) pstate1 [true]).noise.length = 2 ∧
+    (getNoisyTAll pcfgCurrent false (some [9]) pstate1 [true, true]).noise.length = 3 ∧
+    retVal (getNoisyT pcfgCurrent false (some [9]) pstate1 true).1.w (getNoisyT pcfgCurrent false (some [9]) pstate1 true).2 =
+      .ok [some ⟨3, [6], []⟩, some ⟨0, [], [9]⟩] ∧
+    retVal (getNoisyT pcfgCurrent false (some [9]) (getNoisyT pcfgCurrent false (some [9]) pstate1 true).1 true).1.w
+      (getNoisyT pcfgCurrent false (some [9]) (getNoisyT pcfgCurrent false (some [9]) pstate1 true).1 true).2 =
+      .ok [some ⟨3, [6], []⟩, some ⟨0, [], [9, 9]⟩] ∧
+    (getNoisyTAll pcfgCurrent true (some [9]) pstate1 [true, true]).noise.length = 1 := by
+  decide
+
 /-! ## Pulses as functions of time -/
 
 /-- **pulse_padding_same_function.** `get_qobjevo` / `_fill_coeff` replace a step-function coefficient array of
